@@ -126,7 +126,7 @@ class BinningConfig(BaseConfig, Immutable):
             edges = the_dict.pop("edges")
             closed = the_dict.pop("closed")
             binning = Binning(edges, closed=closed)
-            return cls(binning, **the_dict)
+            return cls(binning, method=BinMethod.custom)
 
         return cls.create(**the_dict, cosmology=cosmology)
 
